@@ -136,6 +136,18 @@ def cli_abspath(ctx):
             callee = F.flow.resolve_call(n, g)
             if callee is not None and callee.module is f.module:
                 nodes.append(callee.node)
+    # the action class may inherit its __call__ from a base class of the
+    # same module
+    for n in ast.walk(f.node):
+        if isinstance(n, ast.ClassDef):
+            for b in n.bases:
+                try:
+                    r = repo.resolve_expr(f.module, b, None)
+                except Exception:
+                    r = None
+                if r is not None and r[0] == 'class' and \
+                        r[1].module is f.module:
+                    nodes += [m for m in r[1].methods.values()]
     for nd in nodes:
         for n in ast.walk(nd):
             if isinstance(n, ast.Call) and Q.callee_attr(n) == 'abspath' \
